@@ -131,9 +131,11 @@ class _TaskGen(object):
                 return {'name': nm}, copy.deepcopy(a)
             return {'name': rng.choice(self.k['ss'])}, None
         inner = [n for n, o in self.objs.items()
-                 if o['cls'] == 'Derivative' and o['live'] and not o['args'] and o['depth'] < 1]
+                 if o['cls'] in ('Derivative', 'Gradient') and o['live'] and not o['args']
+                 and o['depth'] < 1]
         if inner and rng.random() < self.k['p_nested']:
-            # re-entrancy from a multivariate object: f(x) = sum_i inner'(x_i)  (or the vector itself)
+            # re-entrancy from a multivariate object: the function evaluates another live object
+            # (an elementwise Derivative, or a Gradient of the same dimension) on its argument
             return {'name': 'nested', 'inner': rng.choice(sorted(inner)),
                     'post': None if cls == 'Jacobian' else 'vsum'}, None
         if cls == 'Jacobian':
